@@ -228,6 +228,7 @@ def negative_control(prop, res, module="Trace_EngineRel", view="all"):
         f.write("\n".join(bad) + "\n")
     cfg = f"{module}_{view}.cfg" if module == "Trace_EngineRel" else None
     r = core.tlc_trace(module, bp, cfg=cfg, tag=f"neg-{prop}")
+    res.add_tlc({"distinct": r.get("distinct", 0), "states": r.get("states", 0)})
     ok = (not r["accepted"]) and r.get("reject_at") == (target - s) + 1
     res.cov["negative_controls"].append({"corrupted_event_index": target - s, "rejected_at": r.get("reject_at", None),
                                          "as_expected": ok})
